@@ -393,6 +393,14 @@ func (jp *jobProvider) checkFileWasTruncated(job *Job, size int64) {
 	lastOffset := job.seek(0, io.SeekCurrent, "check file truncation")
 
 	if lastOffset > size {
+		// size was taken before the offset: the file may have grown and been read further since then,
+		// so take it again before deciding that the file was truncated
+		if stat, err := job.file.Stat(); err == nil {
+			size = stat.Size()
+		}
+	}
+
+	if lastOffset > size {
 		jp.truncateJob(job)
 	}
 }
